@@ -424,8 +424,16 @@ let run_case (line : string) : string =
       (M.run_rops (parse_rops (arg 2)) (bytes_of_hex (arg 1)))
   | "WROPS" ->
     let ops = List.map parse_wop (split_top ',' (unbracket (arg 1))) in
-    outcome (fun (w, obs) -> hex_of_bytes w.M.w_data ^ " " ^ print_obs_list obs)
-      (M.run_wops ops (M.writer_of []))
+    (* a refused overwrite must leave the buffer as it was: report its content *)
+    let rec go w obs = function
+      | [] -> hex_of_bytes w.M.w_data ^ " " ^ print_obs_list (List.rev obs)
+      | o :: t ->
+        (match M.wop_step w o with
+         | M.Val (w', None) -> go w' obs t
+         | M.Val (w', Some x) -> go w' (x :: obs) t
+         | M.Panic _ -> "PANIC " ^ hex_of_bytes w.M.w_data
+         | M.UB -> "UB" | M.OutOfFuel -> "NOFUEL") in
+    go (M.writer_of []) [] ops
   | "BITS" ->
     let k = bm_kind_of (arg 1) in
     let w = M.bm_new k (arg 2 = "1") (arg 3 = "1") in
